@@ -711,6 +711,7 @@ def qpack_representations(ctx, rid):
     with depth_limit(5):
         a = {x for p in walk(ds) for x in path_sig(p)[0] if x.startswith("BitAnd(ok(Decoder::decode_integer")}
     ctx.check(rid, "H flag", len(a) == 2 and all(re.match(r"^BitAnd\(ok\(Decoder::decode_integer\(.*\)\)\.0,1\) (==|!=) 1$", x) for x in a), "decode_string's Huffman flag is not `flags & 1`: %s" % sorted(a), where(ds))
+    static_table_lookup_exact(ctx, rid)
     es = A.find1(r"^wtransport_proto::qpack::Encoder::encode_string$")
     with depth_limit(4):
         fl = {m.group(0) for p in walk(es) for x in path_sig(p)[0] for m in [re.search(r"encode_integer\(BitOr\(Shl\(flags,1\),\((0|1) as u8\)\)", x)] if m}
@@ -1119,3 +1120,177 @@ def capsule_with_frame_table(ctx, rid):
     ctx.check(rid, "Capsule::with_frame wire sequence", len(full) == 1 and len(seq) == 3 and "get_varint" in seq[0] and "get_varint" in seq[1] and "get_bytes" in seq[2],
               "Capsule::with_frame does not read [varint type, varint len, bytes len]: %s" % seq, where(fn))
 
+
+
+# ------------------------------------------------------------------ QPACK encoder: static-table lookup is exact
+
+INEXACT_STR = re.compile(r"<impl str>::(eq_ignore_ascii_case|to_ascii_lowercase|to_ascii_uppercase|to_lowercase|to_uppercase|starts_with|ends_with|contains|"
+                         r"trim|trim_start|trim_end|trim_matches|strip_prefix|strip_suffix|find|matches)$|<impl \[u8\]>::eq_ignore_ascii_case$|<impl u8>::eq_ignore_ascii_case$")
+
+
+def static_table_lookup_exact(ctx, rid):
+    """`StaticTable::lookup_index(name, value)` decides whether the encoder replaces a field (or its name) by a static-table index.  The
+    decoder returns the table's spelling, so the replacement is value-preserving only if the comparison is exact string equality:
+    (1) no case-folding / prefix / trimming predicate anywhere in the lookup family; (2) `KeyValue` (name and value indexed) is returned
+    only under a true exact `==` on the value, `KeyOnly` only under its negation."""
+    A = ctx.A
+    fam = [f for f in A.fn_list if f.body and f.path.startswith("wtransport_proto::qpack::StaticTable::lookup_index")]
+    ctx.floor(rid, "lookup_index family", len(fam), 1)
+    bad = set()
+    kv = ko = 0
+    okv = oko = True
+    for f in fam:
+        for p in nonpanic(walk(f)):
+            for e in p.events:
+                if e[0] == "call" and INEXACT_STR.search(e[1]):
+                    bad.add(e[1].split("::")[-1])
+            if p.leaf[0] != "return":
+                continue
+            leaf = canon(p.leaf[1])
+            at = path_sig(p)[0]
+            eqv = [a for a in at if re.match(r"^!?<impl PartialEq<.*>::eq\(.*value.*\)$|^!?<impl PartialEq<.*>::ne\(.*value.*\)$|^!?<str as PartialEq>::(eq|ne)\(.*value.*\)$", a)]
+            pos = [a for a in eqv if (not a.startswith("!")) == ("::eq(" in a)]
+            neg = [a for a in eqv if (a.startswith("!")) == ("::eq(" in a)]
+            if "LookupIndexFound::KeyValue(" in leaf:
+                kv += 1
+                okv = okv and bool(pos) and not neg
+            if "LookupIndexFound::KeyOnly(" in leaf:
+                ko += 1
+                oko = oko and bool(neg) and not pos
+    ctx.check(rid, "static-table lookup uses exact string comparison only", not bad,
+              "StaticTable::lookup_index compares with %s: a field whose name/value differs from a static-table entry only by case (or prefix) is sent as "
+              "that entry's index, and the peer decodes the table's spelling instead of the caller's" % sorted(bad), fam[0].at if fam else "?",
+              key="lookup_index inexact comparison")
+    ctx.check(rid, "KeyValue only under value == entry.value", kv > 0 and okv, "lookup_index returns KeyValue on a path without a true exact `==` on the value", fam[0].at if fam else "?")
+    ctx.check(rid, "KeyOnly only under value != entry.value", ko > 0 and oko, "lookup_index returns KeyOnly on a path without a false exact `==` on the value", fam[0].at if fam else "?")
+
+
+# ------------------------------------------------------------------ QuicSendStream::finish
+
+def finish_table(ctx, rid):
+    """`finish()` issues quinn's finish() and then waits for `stopped()`: Ok only when the peer has acknowledged everything sent (Closed),
+    any other outcome is returned as the error it is.  Returning before that lets the application close the connection while data / FIN
+    are still buffered (the receiver then sees a truncated stream instead of the bytes followed by end-of-stream)."""
+    A = ctx.A
+    f = A.find1(r"^wtransport::driver::streams::QuicSendStream::finish::\{closure#0\}$")
+    ST = r"await\(QuicSendStream::stopped\(self\)\)"
+    rows = [
+        {"name": "Closed->Ok", "atoms": [r"^%s is Closed$" % ST], "events": [r"^SendStream::finish\(self\.0\)$"], "leaf": r"^return Result::Ok\(\(\)\)$"},
+        {"name": "otherwise->Err(that)", "atoms": [r"^%s isnot Closed$" % ST], "events": [r"^SendStream::finish\(self\.0\)$"], "leaf": r"^return Result::Err\(%s\)$" % ST},
+    ]
+    ps = walk(f)
+    match_table(ctx, rid, f, ps, rows, "QuicSendStream::finish")
+    # finish() is called before stopped() is awaited
+    for p in nonpanic(ps):
+        ev = event_strs(p)
+        i1 = [i for i, e in enumerate(ev) if e.startswith("SendStream::finish(")]
+        i2 = [i for i, e in enumerate(ev) if e.startswith("await QuicSendStream::stopped(")]
+        ctx.check(rid, "finish before stopped|%s" % path_sig(p)[1][:30], bool(i1) and bool(i2) and i1[0] < i2[0], "finish(): quinn finish() is not issued before awaiting stopped()", where(f))
+
+
+# ------------------------------------------------------------------ the worker loop never parks outside its select!
+
+def worker_loop_never_parks(ctx, rid, idx=None):
+    """Worker::run_impl's loop suspends only at its select!: the branch handlers are synchronous and use non-blocking queue operations.
+    A handler that awaits (a full queue, a lock) parks the one task that observes every termination cause and serves every stream."""
+    from corowit import CoroIndex, ty_short
+    from rulelib import event_strs
+    A = ctx.A
+    idx = idx or CoroIndex(A)
+    w = idx.find1(r"^wtransport::driver::worker::Worker::run_impl::\{closure#0\}$")
+    cfg = w.fn.cfg
+    in_loop = [s for s in w.susp if s.yield_bb is not None and any(
+        s.yield_bb in c and len(c) > 12 for c in cfg.sccs)]
+    nonsel = [s for s in in_loop if not s.is_select]
+    ctx.check(rid, "run_impl loop suspensions", len(in_loop) >= 1 and not nonsel,
+              "Worker::run_impl suspends inside its loop outside the select!: %s" % [(s.where, ty_short(s.awaitee["ty_j"]) if s.awaitee else None) for s in nonsel], w.fn.at)
+    unm = [s for s in w.susp if s.yield_bb is None]
+    ctx.check(rid, "run_impl suspensions matched", not unm, "cannot decide: unmatched suspension points in run_impl", w.fn.at)
+    for h in ("handle_uni_h3_stream", "handle_bi_h3_stream", "handle_remote_settings"):
+        f = A.fn("wtransport::driver::worker::Worker::%s" % h)
+        ctx.check(rid, "%s is synchronous" % h, not f.is_coroutine and not f.raw.get("async"),
+                  "Worker::%s became async: a blocking send/lock in a handler stalls every stream" % h, f.at)
+        # and it only uses non-blocking sends
+        evs = [e for p in nonpanic(walk(f)) for e in event_strs(p)]
+        blocking = [e for e in evs if re.match(r"^(Sender|BiChannelEndpoint)::send\(", e) or "blocking_send" in e or "blocking_lock" in e]
+        ctx.check(rid, "%s non-blocking" % h, not blocking, "Worker::%s uses a blocking queue operation: %s" % (h, blocking[:2]), f.at)
+
+
+
+# ------------------------------------------------------------------ the set of pinned certificate hashes
+
+def hash_pin_set(ctx, rid):
+    """A certificate is accepted by pinning iff its hash is in the configured set — for every way the set was built (`new`, then any number of
+    `add`).  Structural condition: the container has order-independent membership (a set type), `new` collects exactly the given hashes,
+    `add` inserts through the set's own insert, and the verifier's lookup is the set's `contains` on SHA-256(leaf).  (A sorted-vector +
+    binary-search representation would make acceptance depend on the order of `add` calls.)"""
+    A = ctx.A
+    adt = A.adt("wtransport::tls::client::ServerHashVerification")
+    fty = {x["name"]: x["ty"] for x in adt["variants"][0]["fields"]}
+    ctx.check(rid, "pinned hashes are kept in a set", re.match(r"^std::collections::(BTreeSet|HashSet)<wtransport::tls::Sha256Digest", fty.get("hashes", "")) is not None,
+              "ServerHashVerification keeps its pins in %s: membership must not depend on insertion order (BTreeSet / HashSet)" % fty.get("hashes"), adt["at"]["sp"],
+              key="pinned hashes container")
+    g = A.find1(r"^wtransport::tls::client::ServerHashVerification::new$")
+    sg = [path_sig(p)[1] for p in nonpanic(walk(g))]
+    ctx.check(rid, "ServerHashVerification::new keeps exactly the given hashes", len(sg) == 1 and re.match(r"^return ServerHashVerification\(<(BTreeSet|HashSet)<T(, S)?> as FromIterator<T>>::from_iter\(hashes\),default_crypto_provider\(\)\.signature_verification_algorithms\)$", sg[0]) is not None,
+              "ServerHashVerification::new changed: %s" % sg, where(g))
+    g = A.find1(r"^wtransport::tls::client::ServerHashVerification::add$")
+    ev = [event_strs(p) for p in nonpanic(walk(g))]
+    ctx.check(rid, "ServerHashVerification::add inserts into the set", len(ev) == 1 and ev[0] == ["BTreeSet::insert(self.hashes,digest)"] or (len(ev) == 1 and ev[0] == ["HashSet::insert(self.hashes,digest)"]),
+              "ServerHashVerification::add is not `self.hashes.insert(digest)`: %s" % ev, where(g))
+    v = A.fn("<wtransport::tls::client::ServerHashVerification as rustls::client::danger::ServerCertVerifier>::verify_server_cert")
+    acc = [p for p in nonpanic(walk(v)) if "ServerCertVerified::assertion()" in path_sig(p)[1]]
+    okl = bool(acc) and all(any(re.match(r"^(BTreeSet|HashSet)::contains\(self\.hashes,Sha256Digest\(<D as Digest>::digest\((<CertificateDer as AsRef<\[u8\]>>::as_ref\(end_entity\)|end_entity)\)\)\)$", a) for a in path_sig(p)[0]) for p in acc)
+    ctx.check(rid, "lookup = set membership of SHA-256(leaf)", okl, "verify_server_cert does not accept exactly under `self.hashes.contains(&Sha256(end_entity))`", where(v))
+
+
+# ------------------------------------------------------------------ driver-level datagram encode / decode
+
+def driver_datagram_tables(ctx, rid):
+    """wtransport::datagram::Datagram: `read` keeps the QUIC bytes, computes the payload offset from what the proto parser consumed
+    (len(quic) - len(payload)) and converts the quarter stream id back to the session id; `write` allocates header_size(quarter id) +
+    payload.len() and writes varint(quarter id of the session) followed by the payload; accessors slice from the stored offset."""
+    from rulelib import apply_closure
+    A = ctx.A
+    # driver side
+    f = A.fn("wtransport::datagram::Datagram::read")
+    H3 = r"ok\(Datagram::read\(quic_dgram\)\)"
+    rows = [
+        {"name": "parse error passthrough", "atoms": [r"^Datagram::read\(quic_dgram\) fails$"], "leaf": r"^return Result::Err\(err\(Datagram::read\(quic_dgram\)\)\)$"},
+        {"name": "ok->(same bytes, len(quic)-len(payload), qid.into_session_id())", "atoms": [r"^Datagram::read\(quic_dgram\) ok$"],
+         "leaf": r"^return Result::Ok\(datagram::Datagram\(quic_dgram,SubWithOverflow\(Bytes::len\(quic_dgram\),<impl \[T\]>::len\(Datagram::payload\(%s\)\)\)\.0,QStreamId::into_session_id\(Datagram::qstream_id\(%s\)\)\)\)$" % (H3, H3)},
+    ]
+    match_table(ctx, rid, f, walk(f), rows, "driver Datagram::read")
+    f = A.fn("wtransport::datagram::Datagram::write")
+    H = r"Datagram::new\(QStreamId::from_session_id\(session_id\),payload\)"
+    BUF = r"Vec::into_boxed_slice\(from_elem\(0,Datagram::write_size\(%s\)\)\)" % H
+    QD = r"<Bytes as From<Box<\[u8\]>>>::from\(%s\)" % BUF
+    ps = nonpanic(walk(f))
+    ls = [path_sig(p)[1] for p in ps]
+    want = r"^return datagram::Datagram\(%s,SubWithOverflow\(Bytes::len\(%s\),<impl \[T\]>::len\(payload\)\)\.0,session_id\)$" % (QD, QD)
+    ctx.check(rid, "driver Datagram::write", len(ls) == 1 and re.match(want, ls[0]) is not None, "driver Datagram::write changed shape: %s" % ls, where(f))
+    evs = [e for p in ps for e in event_strs(p)]
+    ctx.check(rid, "driver Datagram::write serialises into the exact-size buffer", any(re.match(r"^Datagram::write\(%s,\(%s as " % (H, BUF), e) or re.match(r"^Datagram::write\(%s,%s" % (H, BUF), e) or e.startswith("Datagram::write(Datagram::new(QStreamId::from_session_id(session_id),payload),") for e in evs),
+              "driver Datagram::write does not call proto Datagram::write into the buffer of write_size bytes", where(f))
+    for nm, fld in (("payload", r"^return Bytes::slice\(self\.quic_dgram,RangeFrom\(self\.payload_offset\)\)$"),
+                    ("session_id", r"^return self\.session_id$"), ("into_quic_bytes", r"^return self\.quic_dgram$")):
+        f = A.fn("wtransport::datagram::Datagram::%s" % nm)
+        ls = [path_sig(p)[1] for p in nonpanic(walk(f))]
+        ctx.check(rid, "driver Datagram::%s" % nm, len(ls) == 1 and re.match(fld, ls[0]) is not None, "Datagram::%s changed: %s" % (nm, ls), where(f))
+    f = A.fn("<wtransport::datagram::Datagram as std::ops::Deref>::deref")
+    ls = [path_sig(p)[1] for p in nonpanic(walk(f))]
+    ctx.check(rid, "Deref slices from payload_offset", ls == ["return self.quic_dgram[self.payload_offset..]"], "Deref for Datagram changed: %s" % ls, where(f))
+
+    STOP = re.compile(r"^wtransport_proto::(varint::VarInt|ids::(QStreamId|SessionId|StreamId))::|^quinn|^<wtransport_proto::bytes::BufferWriter")
+    HDR = "VarInt::size(QStreamId::into_varint(QStreamId::from_session_id(%s)))"
+    f = A.fn("wtransport::datagram::Datagram::write")
+    ps = nonpanic(walk(f, inline=STOP))
+    evs = [e for p in ps for e in event_strs(p)]
+    QID = "QStreamId::into_varint(QStreamId::from_session_id(session_id))"
+    alloc = sorted({e for e in evs if e.startswith("from_elem(")})
+    ctx.check(rid, "bytes allocated for a datagram == header size + payload length",
+              alloc == ["from_elem(0,AddWithOverflow(%s,<impl [T]>::len(payload)).0)" % (HDR % "session_id")],
+              "driver Datagram::write allocates %s, expected header_size(quarter id) + payload.len()" % alloc, where(f), key="datagram buffer size normal form")
+    puts = sorted({e for e in evs if e.startswith("<BufferWriter as BytesWriter>::put_varint(")})
+    ctx.check(rid, "the header written is the varint of the quarter stream id", len(puts) == 1 and puts[0].endswith("," + QID + ")"),
+              "driver Datagram::write writes %s, expected put_varint(.., %s)" % (puts, QID), where(f), key="datagram header normal form")
